@@ -350,11 +350,14 @@ namespace Pistache
         template <typename T>
         ResponseStream& operator<<(ResponseStream& stream, const T& val)
         {
-            Size<T> size;
+            // One chunk holding exactly the text an ostream prints for the value: the chunk
+            // size is taken from that text (it used to be guessed per type, and the value
+            // itself was printed with the stream still in hexadecimal mode).
+            std::ostringstream text;
+            text << val;
+            const std::string str = text.str();
 
-            std::ostream os(&stream.buf_);
-            os << std::hex << size(val) << crlf;
-            os << val << crlf;
+            stream.write(str.data(), static_cast<std::streamsize>(str.size()));
 
             return stream;
         }
